@@ -134,7 +134,7 @@ def wit_jobs(ctx):
     if ctx.quick:
         plan = [("client", "1.2", "ProgsWitQ", '{"d1"}')]
     else:
-        plan = [("client", "1.2", "ProgsWit", '{"d1","d2"}'), ("client", "1.3", "ProgsWit", '{"d1","d2"}'),
+        plan = [("client", "1.2", "ProgsWit", '{"d1","d2"}'), ("client", "1.3", "ProgsWitQ", '{"d1","d2"}'),
                 ("server", "1.2", "ProgsWitQ", '{"d1","d2"}'), ("server", "1.3", "ProgsWitQ", '{"d1","d2"}')]
     for side, ver, progs, kinds in plan:
         s = dict(base, PROGS=progs, SHAPE=SHAPES[(side, ver)], KINDS=kinds, MAXPEER="1" if ctx.quick else "2")
@@ -517,7 +517,7 @@ def run(ctx):
         else:
             for side, ver in (("client", "1.2"), ("client", "1.3"), ("server", "1.2"), ("server", "1.3")):
                 ss = []
-                for gm, num in ((0, 60), (8, 250), (16, 250)):
+                for gm, num in ((0, 50), (8, 200), (16, 200)):
                     ss += gen_schedules(ctx, side, ver, num, gm)
                 plan.append((side, ver, ss))
             plan.append(("client", "1.0", plan[0][2][:150]))
@@ -529,14 +529,16 @@ def run(ctx):
             raise Machinery("background TLC (directed schedules): %r" % (bgw.error,))
         rngw = random.Random(ctx.seed)
         ndir = 0
+        first_directed = nid
         for j, r in bgw.results:
             fold_counts(ctx, j, r)
-            ws = wit_schedules(ctx, j, r, 10 if quick else 60, rngw)
+            ws = wit_schedules(ctx, j, r, 10 if quick else 40, rngw)
             c = concretise(ws, nid, j["side"], j["ver"], "strict", ctx.seed)
             nid += len(c)
             ndir += len(c)
             strict += c
         ctx.cov["directed_schedules"] = ndir
+        directed_ids = set(range(first_directed, nid))
         for side, ver, ss in plan:
             c = concretise(ss, nid, side, ver, "strict", ctx.seed)
             nid += len(c)
@@ -569,9 +571,9 @@ def run(ctx):
             go("strict-race", strict[::2], True)
             go("loose-race", loose[1::3] + rnd, True)
         else:
-            go("strict-race", strict, True)
-            go("loose-race", loose + rnd, True)
-            go("loose", loose + rnd, False)
+            go("strict-race", [s for i, s in enumerate(strict) if i % 2 == 0 or s["id"] in directed_ids], True)
+            go("loose-race", loose[::2] + rnd, True)
+            go("loose", loose[1::2] + rnd, False)
         acc, nrej = judge(ctx, binary, binary_race, batches)
         if not quick and nrej == 0:
             # observation (left open by the statement): did every Write arrive as one contiguous piece?
